@@ -4,6 +4,8 @@ from .domain import Lin
 from .values import BOT, Arr, Bot, BoxU, Delta, Enum, Fn, FnPtr, Iter, Opaque, Ref, Scalar, Seq, Struct, Val, val_syms
 
 MAX_FACTS = 600
+import os
+NO_GEN = not os.environ.get('USE_GEN')
 
 
 class SymTab:
@@ -28,7 +30,7 @@ class SymTab:
 
 
 class State:
-    __slots__ = ("st", "cells", "iv", "lin", "cmpd", "ovf", "notd", "absd", "discr", "when", "facts", "dead", "log")
+    __slots__ = ("st", "cells", "iv", "lin", "cmpd", "ovf", "notd", "absd", "discr", "when", "facts", "dead", "log", "gen")
 
     def __init__(self, st):
         self.st = st
@@ -43,6 +45,7 @@ class State:
         self.when = {}
         self.facts = set()
         self.dead = False
+        self.gen = {}
         self.log = ()  # read/write logs (tuple, append-only per path)
 
     def copy(self):
@@ -58,6 +61,7 @@ class State:
         n.when = dict(self.when)
         n.facts = set(self.facts)
         n.dead = self.dead
+        n.gen = dict(self.gen)
         n.log = self.log
         return n
 
@@ -73,6 +77,30 @@ class State:
             if h is not None and (h[0] > v[0][0] or h[1] < v[-1][1]):
                 v = D.meet(v, D.rng(h[0], h[1]))
         return v
+
+    def tight_iv(self, s):
+        """Interval of s sharpened by one linear fact each way (t <= f + hull(t - f))."""
+        iv = self.ivof(s)
+        if not iv or not self.facts:
+            return iv
+        t = self.term(s)
+        if not t.t:
+            return iv
+        ts = set(t.t)
+        lo_, hi_ = iv[0][0], iv[-1][1]
+        nt = t.scale(-1)
+        for f in self.facts:
+            if not (ts & set(f.t)):
+                continue
+            h = self.hull(t.sub(f))
+            if h is not None and h[1] < hi_:
+                hi_ = h[1]
+            h = self.hull(nt.sub(f))
+            if h is not None and -h[1] > lo_:
+                lo_ = -h[1]
+        if lo_ > hi_:
+            return iv
+        return D.meet(iv, D.rng(lo_, hi_))
 
     def term(self, s):
         l = self.lin.get(s)
@@ -110,6 +138,7 @@ class State:
 
     def define(self, s, iv, lin=None):
         self.kill(s)
+        self.gen[s] = self.gen.get(s, 0) + 1
         r = self.st.range(s)
         iv = D.meet(iv, D.rng(r[0], r[1]))
         self.iv[s] = iv
@@ -255,11 +284,19 @@ class State:
         return l.subst({s: self.lin[s] for s in l.t if s in self.lin})
 
     def apply_delta(self, d):
+        """Apply conditional knowledge; parts about symbols that were redefined since the delta was
+        recorded (loop-carried phi symbols, re-executed statements) are stale and skipped."""
+        g = d.gen if not NO_GEN else None
+        cur = self.gen
         for s, iv in d.iv.items():
+            if g is not None and cur.get(s, 0) != g.get(s, 0):
+                continue
             self.refine(s, iv)
             if self.dead:
                 return
         for f in d.facts:
+            if g is not None and any(cur.get(s, 0) != g.get(s, 0) for s in f.t):
+                continue
             self.add_fact(f)
 
     # ----- relational assume ---------------------------------------------
@@ -372,6 +409,8 @@ class State:
                 for d in ds[1:]:
                     common &= set(d.iv)
                 for x in common:
+                    if any(d.gen is not None and self.gen.get(x, 0) != d.gen.get(x, 0) for d in ds):
+                        continue
                     j = ds[0].iv[x]
                     for d in ds[1:]:
                         j = D.join(j, d.iv[x])
